@@ -397,7 +397,8 @@ fn dynval_entries(repo: &Path) -> Result<Vec<(String, String)>, String> {
             let j = h.rfind(|c: char| !(c.is_alphanumeric() || c == '_' || c == '.')).map(|j| j + 1).unwrap_or(0);
             &h[j..]
         }).collect();
-        if calls.len() != 1 || idents(body).iter().filter(|w| **w == "ptr").count() != 2 {
+        // (whitespace is gone: `let ptr =` reads `letptr=`; `ptr` occurs there and in the call)
+        if calls.len() != 1 || body.matches("ptr").count() != 2 || body.matches("letptr=").count() != 1 {
             return Err(format!("basic.rs: `{name}` must hand `ptr` to exactly one function, found {calls:?}"));
         }
         let callee = calls[0].strip_prefix("self.").ok_or(format!("basic.rs: `{name}` hands `ptr` to `{}`, expected a method of the list", calls[0]))?;
